@@ -531,7 +531,7 @@ struct WkdRun {
 
     void op_verify(const Op& op) {
         if (sigs.empty()) return; SigM& sg = sigs[(size_t) op.arg(0) % sigs.size()]; if (!sg.expect_valid) return;
-        int mut = (int) op.arg(1) % 10; std::vector<MAttr> L = sg.list; Bn m = sg.msg; Buf sig = sg.sig; bool expect = true; std::string what;
+        int mut = (int) op.arg(1) % 11; std::vector<MAttr> L = sg.list; Bn m = sg.msg; Buf sig = sg.sig; bool expect = true; std::string what;
         size_t pick = (size_t) op.arg(2);
         switch (mut) {
         case 0: what = "unchanged"; break;
@@ -547,6 +547,13 @@ struct WkdRun {
             std::vector<uint8_t> b = wk_marshal(R, view, JV_OK_WK_SIG, sig, (pick & 1) != 0); Bytes hb(b.data(), b.size()); Buf s2(R.sz(JV_SZ_WK_SIG));
             env.lib_calls++; int ok = R.jv_wk_unmarshal(view, JV_OK_WK_SIG, s2, hb.p, (pick & 1) != 0, 1);
             env.check(ok == 1, "C15", "signature:unmarshal-own-bytes", "validating unmarshal rejected the library's own signature bytes"); sig = s2; what = "after a marshalling hop"; break; }
+        case 10: { // both components raised to the same power k != 1 (k = -1: both inverted): every relation between the two components survives,
+                   // the pairing ratio becomes e(g2,g1)^k - a verifier that looks at part of that value, or at it up to sign, lets it through
+            static const char* ks[] = {"r-1", "2", "3", "2^64"}; Bn k = Bn::mod(value_of_code(ks[pick % 4]), K().r); if ((pick >> 2) & 1) k = Bn::sub(K().r, k);
+            if (k == Bn(1) || k.is_zero()) k = Bn(2);
+            G1v a0 = w.field<G1v>(JV_OK_WK_SIG, sig, JV_F_SIG_A0); G2v a1 = w.field<G2v>(JV_OK_WK_SIG, sig, JV_F_SIG_A1);
+            w.setfield(JV_OK_WK_SIG, sig, JV_F_SIG_A0, 0, w.g1mul(a0, k)); w.setfield(JV_OK_WK_SIG, sig, JV_F_SIG_A1, 0, w.g2mul(a1, k));
+            expect = false; what = "both components raised to the power " + (k == Bn::sub(K().r, Bn(1)) ? std::string("-1 (inverted)") : k.hexstr(8)); env.count("fault:signature_components_raised_to_a_common_power"); break; }
         case 9: { // one coordinate field of the signature object perturbed (x, y or z of a0 or a1; for a1 one half of the quadratic-extension
                   // coordinate), on the object as sign left it (random z) or on one that came through unmarshal (z exactly 1): the perturbed
                   // triple represents another point (off the curve, in all but a negligible fraction of cases)
@@ -730,7 +737,7 @@ struct WkdScenario : Scenario {
             else if (kind == "DEC") p.ops.push_back({kind, {(int64_t) r.below(64), (int64_t) r.below(64)}, {}});
             else if (kind == "DECM") p.ops.push_back({kind, {(int64_t) r.below(64)}, {}});
             else if (kind == "SIGN") { Op o{kind, {ss, (int64_t) r.below(64), r.chance(1, 4) ? (int64_t) (100 + r.below(1000)) : (int64_t) r.below(value_codes().size()), r.chance(1, 2), r.chance(1, 5) ? r.range(1, 2) : 0}, directives(r, l)}; maybe_fault(o); p.ops.push_back(o); }
-            else if (kind == "VERIFY") p.ops.push_back({kind, {(int64_t) r.below(64), (int64_t) r.below(10), (int64_t) r.below(64)}, {}});
+            else if (kind == "VERIFY") p.ops.push_back({kind, {(int64_t) r.below(64), (int64_t) r.below(11), (int64_t) r.below(64)}, {}});
             else if (kind == "ATTACK") p.ops.push_back({kind, {ss, (int64_t) r.below(64), (int64_t) r.below(4), (int64_t) r.below(value_codes().size()), (int64_t) r.below(8)}, {}});
             else if (kind == "TAMPERCT") p.ops.push_back({kind, {(int64_t) r.below(64), (int64_t) r.below(3)}, {}});
             else if (kind == "HOP") p.ops.push_back(WkdRun::gen_hop(r));
